@@ -245,3 +245,102 @@ inline void NameCore(yaclib::detail::BaseCore* core, const std::string& name) {
 }
 
 }  // namespace vh
+
+// -------------------------------------------------------------------------- VerifPool
+// An executor implemented in the harness with n worker fibers.  Its internals use no yaclib_std primitive: a worker
+// that finds nothing to do parks itself directly in the fiber scheduler and Submit makes one parked worker runnable
+// again, so the pool adds no visible operations of its own; which runnable worker runs next is a controller choice.
+// Stop(): new submissions are refused (Dropped inline), queued jobs still run.  HardStop(): queued jobs are Dropped.
+#include <yaclib/fault/detail/fiber/scheduler.hpp>
+
+#include <deque>
+#include <memory>
+#include <yaclib_std/thread>
+
+namespace vh {
+
+class VerifPool final : public yaclib::IExecutor {
+ public:
+  explicit VerifPool(int workers) {
+    for (int i = 0; i != workers; ++i) {
+      _threads.push_back(std::make_unique<yaclib_std::thread>([this, i] {
+        vrt::NameSelf("W" + std::to_string(i + 1));
+        char probe = 0;
+        (void)probe;
+        Loop();
+      }));
+    }
+  }
+  [[nodiscard]] Type Tag() const noexcept final {
+    return Type::Custom;
+  }
+  [[nodiscard]] bool Alive() const noexcept final {
+    return !_stopped;
+  }
+  void Submit(yaclib::Job& job) noexcept final {
+    if (_stopped) {
+      vrt::Obs("pool_reject");
+      job.Drop();
+      return;
+    }
+    vrt::Obs("pool_submit");
+    _queue.push_back(&job);
+    WakeOne();
+  }
+  void Stop() {
+    _stopped = true;
+  }
+  void HardStop() {
+    _stopped = true;
+    while (!_queue.empty()) {
+      auto* j = _queue.front();
+      _queue.pop_front();
+      j->Drop();
+    }
+  }
+  // after every client finished: let the workers drain the queue and exit
+  void Finish() {
+    _finish = true;
+    while (!_idle.empty()) {
+      WakeOne();
+    }
+  }
+  void Join() {
+    for (auto& t : _threads) {
+      t->join();
+    }
+    _threads.clear();
+  }
+
+ private:
+  void WakeOne() {
+    if (!_idle.empty()) {
+      auto* f = _idle.front();
+      _idle.pop_front();
+      yaclib::fault::Scheduler::GetScheduler()->Schedule(f);
+    }
+  }
+  void Loop() {
+    while (true) {
+      if (!_queue.empty()) {
+        auto* j = _queue.front();
+        _queue.pop_front();
+        vrt::Obs("take");
+        j->Call();
+        continue;
+      }
+      if (_finish) {
+        return;
+      }
+      _idle.push_back(yaclib::fault::Scheduler::Current());
+      yaclib::fault::Scheduler::Suspend();
+    }
+  }
+  std::deque<yaclib::Job*> _queue;
+  std::deque<yaclib::detail::fiber::FiberBase*> _idle;
+  std::vector<std::unique_ptr<yaclib_std::thread>> _threads;
+  bool _stopped = false;
+  bool _finish = false;
+};
+
+}  // namespace vh
